@@ -284,7 +284,7 @@ impl Check for C20 {
         });
         // transform + finish
         let alpha = op_alpha();
-        let depth = if deep { 5 } else { 4 };
+        let depth = if deep { 6 } else { 4 };
         run.bound("transform", format!("all op strings of length 1..={} over {} ops x 2 winding rules x 11 transforms", depth, alpha.len()));
         run.par(alpha.len(), |a0, l| {
             fn rec(run: &Run, s: usize, l: &mut Local, alpha: &[POp], stack: &mut Vec<usize>, depth: usize) {
